@@ -41,7 +41,14 @@ func freshError(e *Engine, s *State) *Val {
 func lockKey(e *Engine, a *Val) (string, *Addr) {
 	if a.A == nil {
 		if len(a.L) == 1 {
-			// a lock reached through a pointer value (shared *sync.Mutex): identified by the pointer
+			// a lock reached through a pointer value (shared *sync.Mutex): identified by the pointer; when
+			// the pointer was loaded from a field that is written only at construction, by that field (two
+			// loads of it are the same pointer even across calls)
+			if a.Src != "" && e.C != nil {
+				if i := strings.LastIndex(a.Src, "."); i > 0 && e.C.Immutable[a.Src] {
+					return "P@" + a.Src + "@" + a.SrcBase, &Addr{K: ACell, Base: a.L[0]}
+				}
+			}
 			return "P@" + a.L[0], &Addr{K: ACell, Base: a.L[0]}
 		}
 		return "", nil
